@@ -14,7 +14,7 @@ INT(n) == [k |-> "Interval", n |-> n]
 RECURSIVE Rep(_, _)
 Rep(x, k) == IF k = 0 THEN "" ELSE x \o Rep(x, k - 1)
 AtomsU0 == {W("a"), W("b"), W("go-to"), W("A_b"), W("x1"), IV("x"), DV("y"), QV("z1"), OP("op"), OP("go-to"),
-            W("x²"), W("名２"), W("n٣"), W("é"), W("Ω1"), W("½x"), OP("é-x"), IV("1"), IV("12"), QV("9z"), DV("①a"), W(Rep("ab", 20)),
+            W("x²"), W("名２"), W("n٣"), W("é"), W("Ω1"), W("½x"), OP("é-x"), IV("1"), IV("12"), QV("9z"), DV("①a"), W(Rep("ab", 20)), W(Rep("name", 20)), OP(Rep("x", 65)),
             INT("0"), INT("7"), INT("30000"), INT("4294967296"), INT("4294967297"), INT("9223372036854775807"),
             INT("9223372036854775808"), INT("12345678901234567890"), INT(VocabAll.usize_max), PH}
 
@@ -58,11 +58,13 @@ ImgWithLatePH == {[k |-> kd, i |-> i, q |-> q] : kd \in ImgKinds, i \in 0..1,
 Puncts == {"Judgement", "Goal", "Question", "Quest"}
 StampsFull == {[k |-> "Eternal"], [k |-> "Past"], [k |-> "Present"], [k |-> "Future"]}
               \cup {[k |-> "Fixed", n |-> n] : n \in {"0", "-1", "137", "9223372036854775807", "-9223372036854775808"}}
+\* neighbours beyond 2^53 (anything routed through f64 merges them)
+StampsHuge == {[k |-> "Fixed", n |-> n] : n \in {"9007199254740992", "9007199254740993", "9223372036854775806", "-9223372036854775807", "-9007199254740993"}}
 Nums3 == {"0", "0.5", "1"}
 TruthsFull == {<<>>} \cup {<<a>> : a \in Nums3} \cup {<<a, b>> : a \in Nums3, b \in {"0", "0.9", "1"}}
 BudgetsFull == {<<>>} \cup {<<a>> : a \in Nums3} \cup {<<a, b>> : a \in Nums3, b \in Nums3}
                \cup {<<a, b, c>> : a \in Nums3, b \in Nums3, c \in {"0", "0.75", "1"}}
-TruthsQuick == {<<>>, <<"1">>, <<"0.5">>, <<"1", "0.9">>, <<"0", "0">>}
+TruthsQuick == {<<>>, <<"1">>, <<"0.5">>, <<"1", "0.9">>, <<"0", "0">>, <<"0.5", "1">>}
 BudgetsQuick == {<<>>, <<"0.5">>, <<"1", "0">>, <<"0.5", "0.75", "0.4">>}
 
 Sentence(t, p, st, tr) == [t |-> t, p |-> p, st |-> st, tr |-> IF p \in {"Question", "Quest"} THEN <<>> ELSE tr]
@@ -79,6 +81,7 @@ RichEnvelopeSet(z) ==
       Bs == {<<x>> : x \in NumsRich} \cup {<<"0.5", x, "0.30000000000000004">> : x \in NumsRich}
       S == {Sentence(W("a"), p, [k |-> "Eternal"], tr) : p \in {"Judgement", "Goal"}, tr \in Ts}
   IN {AsSentence(s) : s \in S} \cup {AsTask(b, Sentence(IV("x"), "Judgement", [k |-> "Present"], <<"0.0000001", "0.9999999999999999">>)) : b \in Bs}
+     \cup {AsSentence(Sentence(W("a"), p, st, <<>>)) : p \in {"Judgement", "Quest"}, st \in StampsHuge}
 
 \* terms whose first / last token interacts with budgets, punctuation and bracket-less stamps
 Junctions == {W("a"), IV("x"), IV("1"), QV("z"), OP("op"), INT("7"),
